@@ -45,6 +45,7 @@ type Job struct {
 
 	DenyCall        func(name string) bool
 	GoInline        func(label string) bool
+	GoInlineCalls   []string // goroutines whose body calls one of these functions run to completion when spawned
 	OnAlloc         func(it *Interp, ev AllocEvent)
 	OnBlockedSend   func(it *Interp, ch *ChanObj, v Value) bool
 	OnBlockedSelect func(it *Interp, x *ssa.Select) int
